@@ -3,7 +3,7 @@
     every captured root loads back to the contents it was made from - for every finite history of
     supported operations.  Lemma file. *)
 From Coq Require Import List NArith ZArith Lia Bool Sorted.
-From Mast Require Import Prim Key Tree KeyOrder Codec CodecRT NameLen Store Diff World Erase Build Spec Canon Links Level Inv Persist Hist Nav Reload DiffSpec DiffK CodecV1 DecRT RootRT.
+From Mast Require Import Prim Key Tree KeyOrder Codec CodecRT NameLen Store Diff World Erase Build Spec Canon Links Level Inv Persist Hist Nav Reload DiffSpec DiffK CodecV1 DecRT RootRT HeightFun.
 Import ListNotations.
 
 Opaque name_of blake2b_256 b64url crc64 uint_layer_fuel.
@@ -199,6 +199,7 @@ Definition astep2 (a : aworld2) (o : op) : aworld2 * aobs2 :=
       end
   | OGet t k => match aget tr t with Some x => (a, BVal (alookup k (at_l x))) | None => (a, BFail 9) end
   | OSize t => match aget tr t with Some x => (a, BNum (N.of_nat (length (at_l x)))) | None => (a, BFail 9) end
+  | OHeight t => match aget tr t with Some x => (a, BNum (N.of_nat (aheight key val (klayer (at_bf x)) (at_bf x) (at_l x)))) | None => (a, BFail 9) end
   | OIter t => match aget tr t with Some x => (a, BList (at_l x)) | None => (a, BFail 9) end
   | OIterStop t n => match aget tr t with Some x => (a, BList (firstn (S n) (at_l x))) | None => (a, BFail 9) end
   | OSeek t k => match aget tr t with Some x => (a, BList (kfrom k (at_l x))) | None => (a, BFail 9) end
@@ -231,7 +232,7 @@ Definition sup (a : aworld2) (o : op) : Prop :=
   match o with
   | ONew _ _ bf _ _ => (2 <= eff_bf bf)%N
   | OIns t k v => match aget (fst a) t with Some x => Reload.list_ok (at_fmt x) (at_kind x) (aupsert k v (at_l x)) | None => True end
-  | ODel _ _ _ | OGet _ _ | OSize _ | OIter _ | OIterStop _ _ | OSeek _ _ | OSeekStop _ _ _ | OClone _ _ | OMakeRoot _ _ => True
+  | ODel _ _ _ | OGet _ _ | OSize _ | OHeight _ | OIter _ | OIterStop _ _ | OSeek _ _ | OSeekStop _ _ _ | OClone _ _ | OMakeRoot _ _ => True
   | OLoad r _ s kind => match aget (snd a) r with Some x => at_s x = s /\ at_kind x = kind /\ (at_bf x < ten40)%N | None => True end
   | ODiff tn told | ODiffCur tn told | ODiffStop tn told _ | ODiffFail tn told _ => same_home a tn told
   | _ => False
@@ -459,6 +460,10 @@ Proof.
   - (* OSize *)
     specialize (HT t). destruct (aget (w_trees w) t) as [tr|] eqn:Et; destruct (aget atr t) as [x|] eqn:Ea; try contradiction; [|split; [exact Hinv|reflexivity]].
     destruct HT as (C & _). split; [exact Hinv|]. cbn [pobs]. rewrite (cn_size _ _ _ _ _ _ _ C). reflexivity.
+  - (* OHeight: the height is a function of the entries *)
+    specialize (HT t). destruct (aget (w_trees w) t) as [tr|] eqn:Et; destruct (aget atr t) as [x|] eqn:Ea; try contradiction; [|split; [exact Hinv|reflexivity]].
+    destruct HT as (C & _). split; [exact Hinv|]. cbn [pobs].
+    rewrite (canon_height key val kcmp (klayer (at_bf x)) (klayer_bound (at_bf x)) (at_bf x) (t_m tr) (at_l x) C). reflexivity.
   - (* OIter *)
     specialize (HT t). destruct (aget (w_trees w) t) as [tr|] eqn:Et; destruct (aget atr t) as [x|] eqn:Ea; try contradiction; [|split; [exact Hinv|reflexivity]].
     destruct HT as (C & _). unfold ro.
@@ -652,7 +657,7 @@ Definition supb (a : aworld2) (o : op) : bool :=
   match o with
   | ONew _ _ bf _ _ => (2 <=? eff_bf bf)%N
   | OIns t k v => match aget (fst a) t with Some x => list_okb_f (at_fmt x) (at_kind x) (aupsert k v (at_l x)) | None => true end
-  | ODel _ _ _ | OGet _ _ | OSize _ | OIter _ | OIterStop _ _ | OSeek _ _ | OSeekStop _ _ _ | OClone _ _ | OMakeRoot _ _ => true
+  | ODel _ _ _ | OGet _ _ | OSize _ | OHeight _ | OIter _ | OIterStop _ _ | OSeek _ _ | OSeekStop _ _ _ | OClone _ _ | OMakeRoot _ _ => true
   | OLoad r _ s kind => match aget (snd a) r with Some x => N.eqb (at_s x) s && N.eqb (at_kind x) kind && (at_bf x <? ten40)%N | None => true end
   | ODiff tn told | ODiffCur tn told | ODiffStop tn told _ | ODiffFail tn told _ => same_homeb a tn told
   | _ => false
